@@ -23,8 +23,9 @@ MinSeq(s) == MinTo(s, Len(s))
 SetMax(S) == CHOOSE x \in S : \A y \in S : y <= x
 SetMin(S) == CHOOSE x \in S : \A y \in S : x <= y
 
-RECURSIVE Gcd(_, _)
-Gcd(a, b) == IF b = 0 THEN Abs(a) ELSE Gcd(b, a % b)
+RECURSIVE GcdP(_, _)
+GcdP(a, b) == IF b = 0 THEN a ELSE GcdP(b, a % b)      \* a, b >= 0
+Gcd(a, b) == GcdP(Abs(a), Abs(b))
 
 RECURSIVE SortedSeq(_)
 SortedSeq(S) == IF S = {} THEN <<>>
